@@ -101,6 +101,9 @@ Section Sub1.
   Definition keep (b : list N) : list N :=
     match cap with None => b | Some k => lastn k b end.
 
+  (* what a Lagged skips *)
+  Definition dropped (b : list N) : list N := firstn (length b - length (keep b)) b.
+
   Definition cstep (c : core) (l : alabel) : option core :=
     match l with
     | APub m =>
@@ -176,8 +179,7 @@ Section Sub1.
         | AIdle, m :: b =>
             if lagging (m :: b)
             then mkGhost (g_pubs g)
-                         (g_hist g ++ map (fun x => (x, false))
-                                          (firstn (length (m :: b) - length (keep (m :: b))) (m :: b)))
+                         (g_hist g ++ map (fun x => (x, false)) (dropped (m :: b)))
                          (g_cast g) (S (g_lags g))
             else mkGhost (g_pubs g) (g_hist g ++ [(m, true)]) (g_cast g) (g_lags g)
         | _, _ => g
@@ -212,6 +214,8 @@ Section Sub1.
            | l :: t => match cstep c l with Some c' => always P c' t | None => True end
            end.
 End Sub1.
+Arguments dropped : simpl never.
+Arguments keep : simpl never.
 
 (* published messages of an abstract trace after the subscription label *)
 Fixpoint apubs_on (ls : list alabel) : list N :=
